@@ -165,6 +165,13 @@ def emit(c, o):
 
 
 def oracle(it):
+    try:
+        return _oracle(it)
+    except (IndexError, TypeError, ValueError) as e:        # an accessor handed back something of another shape than the one asked for
+        return False, "accessors return blocks of the right shape [%s: %s]" % (type(e).__name__, str(e)[:60])
+
+
+def _oracle(it):
     c, o = it["case"], it["obs"]
     name = "point / state / trajectory accessors and direct indexing at n*S*C + s*C + c agree; merged = sum over cells; look-ups return closest (ties earlier) / last not after / first not before, None when no such sample"
     N, S, C = c["N"], c["S"], c["C"]
